@@ -20,12 +20,15 @@ def strategy(draw):
                    layouts=('C', 'F', 'strided', 'neg', 'ro', 'view'), specials=True, units=False,
                    sources=('struct',), chunks=True, windows=True, upper_names=True)
     plain = draw(st.integers(0, 3)) == 0
+    plain_hc = plain and draw(st.integers(0, 2)) == 0
     if plain:
         # a structured array whose dtype coincides with the frame's (native byte order, no casts, fields in channel
-        # order): the writer may then hand out views of the caller's array instead of copies
+        # order): the writer may then hand out views of the caller's array instead of copies.  A third of these are
+        # written inside high-compatibility mode, from data the mode accepts (unsigned / float, uniform index)
         prof = Profile(vrl=[256, 8192], max_frames=1, max_channels=4, max_rows=16, max_width=5, casts=False,
                        byte_orders=('<',), layouts=('C',), specials=True, units=False, sources=('struct',), chunks=True,
-                       windows=True, upper_names=True)
+                       windows=True, upper_names=True, **(dict(dtypes=('u1', 'u2', 'u4', 'f4', 'f8'), uniform_index=True)
+                                                          if plain_hc else {}))
     spec = draw(file_specs(prof))
     if plain:
         spec['write']['source'] = 'struct'
@@ -40,6 +43,7 @@ def strategy(draw):
             spec['renamed_fields'] = True
         spec['fail'] = None
         spec['plain'] = True
+        spec['hc'] = plain_hc
         return spec
     spec['write']['source'] = draw(st.sampled_from(SOURCES))
     spec['write']['opts'] = {'perm': draw(st.sampled_from([None, 'rev'])),
@@ -49,6 +53,7 @@ def strategy(draw):
         chans = [j for j, op in enumerate(spec['lfs'][0]['ops']) if op['t'] == 'channel']
         spec['write']['opts']['inline_ops'] = [j for k, j in enumerate(chans) if k % 2 == draw(st.integers(0, 1))]
     spec['fail'] = draw(st.sampled_from([None, None, None, 'missing-dataset', 'bad-ocs']))
+    spec['hc'] = draw(st.integers(0, 3)) == 0       # built and written inside high-compatibility mode (may refuse: fine)
     return spec
 
 
@@ -84,6 +89,11 @@ class C19(Property):
         fail = spec.pop('fail', None)
         plain = spec.pop('plain', False)
         renamed = spec.pop('renamed_fields', False)
+        hc = spec.pop('hc', False)
+        import contextlib
+        from dliswriter import high_compatibility_mode
+        from dliswriter.configuration import global_config
+        mode = high_compatibility_mode if hc else contextlib.nullcontext
         src = spec['write'].get('source', 'inline')
         chans = [op for lf in spec['lfs'] for op in lf['ops'] if op['t'] == 'channel']
         rows = min(c['data']['shape'][0] for c in chans)
@@ -91,9 +101,13 @@ class C19(Property):
         labels = ['src:' + src] + (['fail:' + fail] if fail else []) + (['struct-dtype-coincides'] if plain else []) + (['fields-under-other-names'] if renamed else [])
         nt = (src == 'struct' or any(c.get('cast') for c in chans) or any(c['data']['dt'][0] == '>' for c in chans)) \
             and bool(ics) and ics < rows
+        if hc:
+            labels.append('high-compatibility-mode')
         try:
-            b = B.build(spec, ctx.scratch)
+            with mode():
+                b = B.build(spec, ctx.scratch)
         except B.BuildError as be:
+            global_config.high_compat_mode = False
             return Result([], labels, False, f"raised-build:{type(be.exc).__name__}")
         data = B.make_source(spec, b, ctx.scratch)
         kw = B.write_kwargs(spec)
@@ -113,9 +127,12 @@ class C19(Property):
                 h5 = hashlib.sha256(f.read()).hexdigest()
         outcome = 'written'
         try:
-            b.df.write(ctx.path(), **kw)
+            with mode():
+                b.df.write(ctx.path(), **kw)
         except Exception as exc:
             outcome = 'raised:' + type(exc).__name__
+        finally:
+            global_config.high_compat_mode = False
         viol = []
         for k, v in b.supplied.items():
             after = fingerprint(v)
